@@ -83,3 +83,48 @@ func VerifC06_O1(v *VerifV) {
 	v.Assert(a.LastHeightValidatorsChanged == b.LastHeightValidatorsChanged, "C06.valupdates.change-height-depends-on-order")
 	verifSameSet(v, a.NextValidators, b.NextValidators, "C06.valupdates.set-depends-on-order", "C06.valupdates.priorities-depend-on-order")
 }
+
+// VerifC12_P3: updateState advances the validator sets by exactly one block: the new current set
+// is the old next set, the new last set the old current set, and the new next set is the old next
+// set with the block's updates applied and the proposer priority advanced by exactly one round;
+// the change height moves to height+2 iff there were updates. Priorities of the old next set are
+// symbolic.
+func VerifC12_P3(v *VerifV) {
+	verifV = v
+	prio := func() int64 { x := v.I64("prio"); v.Assume(x >= -40 && x <= 40); return x }
+	p0, p1 := prio(), prio()
+	p2 := -(p0 + p1) // centred
+	next := verifSet([]int64{10, 20, 30}, []int64{p0, p1, p2}, v.Choice("proposer", 3))
+	cur := verifSet([]int64{10, 20, 30}, []int64{1, 2, -3}, 0)
+	last := verifSet([]int64{10, 20, 30}, []int64{3, -1, -2}, 1)
+	st := LatestBlockState{ChainID: "kai", InitialHeight: 1, LastBlockHeight: 4, LastHeightValidatorsChanged: 2,
+		LastValidators: last, Validators: cur, NextValidators: next}
+	var ups []*types.Validator
+	if v.Bool("with-updates") {
+		ups = []*types.Validator{{Address: verifAddr(1), VotingPower: 25}}
+		v.Cover("with-updates")
+	}
+	want := next.Copy()
+	if len(ups) > 0 {
+		cp := []*types.Validator{{Address: ups[0].Address, VotingPower: ups[0].VotingPower}}
+		v.Assert(want.UpdateWithChangeSet(cp) == nil, "C12.state.setup")
+	}
+	want.IncrementProposerPriority(1)
+	header := &types.Header{Height: 5, Time: time.Unix(1600000005, 0).UTC()}
+	got, err := updateState(verifNopLogger{}, st, types.BlockID{Hash: cmn.Hash{5}}, header, ups)
+	v.Assert(err == nil, "C12.state.update-error")
+	if err != nil {
+		return
+	}
+	verifSameSet(v, got.NextValidators, want, "C12.state.next-set-members", "C12.state.next-set-not-advanced-by-exactly-one-round")
+	verifSameSet(v, got.Validators, next, "C12.state.current-set-is-not-the-old-next-set", "C12.state.current-set-is-not-the-old-next-set")
+	verifSameSet(v, got.LastValidators, cur, "C12.state.last-set-is-not-the-old-current-set", "C12.state.last-set-is-not-the-old-current-set")
+	if len(ups) > 0 {
+		v.Assert(got.LastHeightValidatorsChanged == 7, "C12.state.change-height")
+	} else {
+		v.Assert(got.LastHeightValidatorsChanged == 2, "C12.state.change-height")
+	}
+	v.Assert(got.LastBlockHeight == 5 && got.LastBlockID.Hash == (cmn.Hash{5}), "C12.state.block-reference")
+	// the input state is not modified (the sets are copied)
+	verifSameSet(v, st.NextValidators, next, "C12.state.input-state-modified", "C12.state.input-state-modified")
+}
